@@ -185,8 +185,16 @@ def _worker_init(cid: str) -> None:
 def _worker_run(args: t.Tuple[t.Any, str, int]) -> t.Tuple[t.Optional[Acc], t.Optional[str]]:
     shard, tier, seed = args
     acc = Acc()
+    from mc import budget as _budget
+
+    _budget.S.poisoned = False
     try:
         _worker_mod.run_shard(shard, tier, seed, acc)  # type: ignore[union-attr]
+        return acc, None
+    except _budget.ShardAbort as e:
+        acc.cap(f"shard {shard!r} stopped: {e}")
+        if not acc.violation_count:
+            acc.violate("harness.blocked-call", ["shard", shard, tier], {"detail": str(e)}, size=10**6)
         return acc, None
     except (HarnessError, KeyboardInterrupt, SystemExit):
         return None, f"shard {shard!r}:\n{traceback.format_exc()}"
